@@ -257,6 +257,47 @@ WindowOK(e) ==
        /\ e.h = << o.hcli, o.hsti >>
        /\ e.if1 = (IF e.api = "disable;enable" THEN 1 ELSE e.if0)
 
+RECURSIVE SumW12(_)
+SumW12(ws) == IF Len(ws) = 0 THEN ZeroW ELSE Add(SumW12(SubSeq(ws, 1, Len(ws) - 1)), ws[Len(ws)]).v
+
+(* calling-context probes: the caller's live state (carry of a + b, the other arguments, twelve
+   locals a + i) survives the inlined wrappers, and every trapped instruction received exactly the
+   operand it was given *)
+Lo(w, bits) == AndW(w, LowMask(bits))
+CtxOK(e) ==
+    LET a == e.args[1]  b == e.args[2]  c == e.args[3]  d == e.args[4]  x == e.args[5]  f == e.args[6]
+        ad == AddC(a, b, 0)
+        ins == e.instrs
+        M(k) == ins[k].m
+        locals == [i \in 1 .. 12 |-> Add(a, W(i - 1)).v]
+        base == /\ e.k = "ok"
+                /\ e.got[1] = Add(ad.v, W(ad.c)).v                \* sum + carry: the flags survived
+                /\ e.got[2] = XorW(c, d) /\ e.got[3] = XorW(x, f)   \* register-held arguments survived
+                /\ e.got[4] = SumW12(locals)                       \* red-zone locals survived
+        outOK(k, port, val, width) == M(k) = "out" /\ ins[k].a = Lo(port, 16) /\ ins[k].b = W(width)
+                                      /\ ins[k].c = Lo(val, 8 * width)
+        inOK(k, port, width) == M(k) = "in" /\ ins[k].a = Lo(port, 16) /\ ins[k].b = W(width)
+        wr(k, msr, val) == M(k) = "wrmsr" /\ ins[k].a = W(msr) /\ ins[k].c = val
+    IN base /\
+       CASE e.name = "port_w32" -> Len(ins) = 2 /\ outOK(1, d, c, 4) /\ outOK(2, f, x, 4)
+         [] e.name = "port_w16" -> Len(ins) = 2 /\ outOK(1, d, c, 2) /\ outOK(2, f, x, 1)
+         [] e.name = "port_r" -> Len(ins) = 3 /\ inOK(1, d, 2) /\ inOK(2, f, 1) /\ inOK(3, c, 4)
+         [] e.name = "msr_twice" ->
+               LET wrs == SelectSeq(ins, LAMBDA i : i.m = "wrmsr") IN
+               /\ Len(wrs) = 3
+               /\ wrs[1].a = << 257, 49152, 0, 0 >> /\ wrs[1].c = SignExt(c)          \* IA32_GS_BASE
+               /\ wrs[2].a = << 258, 49152, 0, 0 >> /\ wrs[2].c = SignExt(c)          \* IA32_KERNEL_GS_BASE
+               /\ wrs[3].a = << 130, 49152, 0, 0 >> /\ wrs[3].c = SignExt(d)          \* IA32_LSTAR
+         [] e.name = "dr_write" ->
+               LET ws == SelectSeq(ins, LAMBDA i : i.m = "mov_to_dr") IN
+               Len(ws) = 2 /\ ws[1].a = W(0) /\ ws[1].c = c /\ ws[2].a = W(7) /\ ws[2].c = d
+         [] e.name = "cs_twice" ->
+               LET rs == SelectSeq(ins, LAMBDA i : i.m = "retfq")
+                   ss == SelectSeq(ins, LAMBDA i : i.m = "mov_to_sreg") IN
+               /\ Len(rs) = 2 /\ rs[1].c = Lo(c, 16) /\ rs[2].c = Lo(c, 16)
+               /\ Len(ss) = 1 /\ ss[1].c = Lo(d, 16)
+         [] OTHER -> TRUE                                          \* cr4_write, efer_update, wi, xcr0: the base checks
+
 RECURSIVE SumW(_, _)
 SumW(ws, n) == IF n = 0 THEN ZeroW ELSE Add(SumW(ws, n - 1), ws[n]).v
 
@@ -301,6 +342,7 @@ Check(e) ==
             /\ e.r[1] = SumW([i \in 1 .. 16 |-> Add(e.seed, W(i - 1)).v], 16)
             /\ Bit(e.r[3], 21) # Bit(e.r[2], 21)
       [] e.op = "mxcsr_rt" -> e.got = e.v /\ e.ind = e.v
+      [] e.op = "ctx" -> CtxOK(e)
       [] e.op = "dr7_rt" -> e.got = e.want /\ e.got_flags = e.flags     \* DR7 fields written are read back
       [] e.op = "mxcsr_upd" -> e.got = e.v /\ e.seen = e.saved
       [] e.op = "port_eq" -> PortEqOK(e)
